@@ -182,17 +182,40 @@ func c20ReadRange(ch *epd.Chunker, epoch, start, end int) ([]string, error) {
 		return nil, fmt.Errorf("Open(%d,%d,%d): %v", epoch, start, end, err)
 	}
 	defer c.Close()
-	var out []string
-	for {
-		line, err := c.Read()
-		if err == io.EOF {
-			return out, nil
+	pass := func() ([]string, error) {
+		var out []string
+		for {
+			line, err := c.Read()
+			if err == io.EOF {
+				return out, nil
+			}
+			if err != nil {
+				return out, err
+			}
+			out = append(out, string(line))
 		}
-		if err != nil {
-			return out, err
-		}
-		out = append(out, string(line))
 	}
+	out, err := pass()
+	if err != nil {
+		return out, err
+	}
+	// the window can be rewound and read again (the documented use of a Chunk): the second pass delivers the same lines
+	if err := c.Rewind(); err != nil {
+		return out, fmt.Errorf("Rewind: %v", err)
+	}
+	again, err := pass()
+	if err != nil {
+		return out, fmt.Errorf("second pass after Rewind: %v", err)
+	}
+	if len(again) != len(out) {
+		return out, fmt.Errorf("second pass after Rewind delivers %d lines, the first %d", len(again), len(out))
+	}
+	for i := range out {
+		if out[i] != again[i] {
+			return out, fmt.Errorf("second pass after Rewind delivers %q where the first delivered %q", trunc(again[i]), trunc(out[i]))
+		}
+	}
+	return out, nil
 }
 
 func c20SameMultiset(got, want []string) string {
@@ -532,7 +555,7 @@ func runC20(r *ev.Run) {
 	r.Set("file_epochs", files)
 	r.Set("file_subranges", ranges)
 	r.Set("refill_subruns_cases", refill)
-	r.Set("rule", "feistel is a bijection of [0,2^b) for every b up to the bound x 24 seeds; shuffleIndex is a permutation of [0,n) for EVERY n up to the bound x 24 seeds plus sizes around powers of two; Batches(n) partitions [0,n) for every n; Chunks partitions every range length at several offsets; files for every line count up to the bound in 7 layouts (short, variable, near-4KiB lines, blank lines in the middle / at the end / first, lines with carriage returns, tabs, NUL and high bytes) read as whole epochs through Batches x Chunks x Open x Read and compared as multisets with the non-blank lines, every sub-range [s,e) for small n; two windows of one chunker open at once with interleaved reads; one 40 MiB file with the real 32 MiB buffer; the same family with the read buffer overlaid to 64/257/4096 bytes (every alignment of a line against a refill)")
+	r.Set("rule", "feistel is a bijection of [0,2^b) for every b up to the bound x 24 seeds; shuffleIndex is a permutation of [0,n) for EVERY n up to the bound x 24 seeds plus sizes around powers of two; Batches(n) partitions [0,n) for every n; Chunks partitions every range length at several offsets; files for every line count up to the bound in 7 layouts (short, variable, near-4KiB lines, blank lines in the middle / at the end / first, lines with carriage returns, tabs, NUL and high bytes) read as whole epochs through Batches x Chunks x Open x Read and compared as multisets with the non-blank lines, every sub-range [s,e) for small n; two windows of one chunker open at once with interleaved reads; every window rewound and read a second time (same lines); one 40 MiB file with the real 32 MiB buffer; the same family with the read buffer overlaid to 64/257/4096 bytes (every alignment of a line against a refill)")
 	r.Assume("epochs beyond the enumerated seeds rest on the epoch only seeding the round keys")
 }
 
